@@ -130,13 +130,17 @@ theorem dial_instant (cfg : Cfg) (s : St) (hd : s.dialing = none) (hl : s.lateDi
     step cfg (step cfg s .startSlow) (.dialDone s.next) = step cfg s .start := by
   by_cases hw : s.wedged = true
   · simp [step, hw, hd, hl]
-  · by_cases hc : s.cur.isSome = true
-    · simp [step, hw, hc, hd, hl]
-    · by_cases hr : s.returning.isSome = true
-      · simp [step, hw, hc, hr, hd, hl]
-      · by_cases hb : s.blocked > 0
-        · simp [step, hw, hc, hr, hb, hd, hl]
-        · simp [step, hw, hc, hr, hb, hd]
+  · by_cases hser : cfg.serial = true
+    · by_cases hc : s.cur.isSome = true
+      · simp [step, hw, hc, hd, hl, hser]
+      · by_cases hr : s.returning.isSome = true
+        · simp [step, hw, hc, hr, hd, hl, hser]
+        · by_cases hb : s.blocked > 0
+          · simp [step, hw, hc, hr, hb, hd, hl, hser]
+          · simp [step, hw, hc, hr, hb, hd, hser]
+    · by_cases hb : s.blocked > 0
+      · simp [step, hw, hb, hd, hl, hser]
+      · simp [step, hw, hb, hd, hser]
 
 /-- a request that gives up on its dial and returns; the set-up completes afterwards -/
 def abandonedDial (k : Nat) : List Ev := [.startSlow, .dialGiveUp, .ret, .dialDone k]
@@ -168,7 +172,7 @@ theorem abandonedDial_leaks (cfg : Cfg) (ha : cfg.syncDial = false) (s : St) (hi
     split <;> simp [hkeep]
   simp only [run, abandonedDial, List.foldl_cons, List.foldl_nil, step, h1, h2, h3, h4, h5, h6, ha,
     Option.isSome_none, Bool.or_self, Bool.false_eq_true, if_false, Nat.lt_irrefl, gt_iff_lt, hconns,
-    List.contains_cons, BEq.rfl, Bool.true_or, if_true, List.erase_cons_head, reduceCtorEq]
+    List.contains_cons, BEq.rfl, Bool.true_or, if_true, List.erase_cons_head, reduceCtorEq, Bool.and_false]
   refine ⟨⟨?_, ?_, ?_, ?_, ?_, ?_, ?_⟩, ?_, ?_⟩
   · rfl
   · rfl
@@ -236,7 +240,7 @@ structure Quiet (w : WSt) : Prop where
 
 theorem timedOut_leaks (cfg : Cfg) (hg : cfg.good = true) (hw : cfg.watchdog = true) (w : WSt) (hq : Quiet w) :
     Quiet (runW cfg w timedOut) ∧ (runW cfg w timedOut).orphans = w.orphans + 1 := by
-  have hc : cfg.closesConn = true := by simp [Cfg.good] at hg; exact hg.1.1.1.1.1
+  have hc : cfg.closesConn = true := by simp [Cfg.good] at hg; exact hg.1.1.1.1.1.1
   obtain ⟨st, armed, orphans⟩ := w
   obtain ⟨h1, h2, h3, h4, h5, h6, h7, h8⟩ := hq
   simp only at h1 h2 h3 h4 h5 h6 h7 h8
@@ -244,7 +248,7 @@ theorem timedOut_leaks (cfg : Cfg) (hg : cfg.good = true) (hw : cfg.watchdog = t
   simp only [runW, timedOut, List.foldl_cons, List.foldl_nil, stepW, step, h1, h2, h3, h4, h5, h6, h8, hc, hw,
     Option.isSome_none, Bool.or_self, Bool.false_eq_true, if_false, Nat.lt_irrefl, gt_iff_lt, drain, takeMsg,
     List.find?_nil, if_true, List.filter_cons, List.filter_nil, bne_self_eq_false, List.contains_nil,
-    Bool.not_false, Bool.and_self]
+    Bool.not_false, Bool.and_self, Bool.and_false]
   refine ⟨⟨?_, ?_, ?_, ?_, ?_, ?_, ?_, ?_⟩, ?_⟩ <;> first | rfl | trivial | assumption
 
 /-- with the watchdog enabled, n requests that time out leave n watchdog tasks behind: no bound -/
